@@ -41,6 +41,9 @@ type Spec struct {
 	DiskCap  int64             `json:"disk_cap,omitempty"` // bytes that may still be written; 0 = unlimited
 	Chunk    int               `json:"chunk,omitempty"`    // write chunk size (0 = 4096)
 
+	ClockOffset int64 `json:"clock_offset,omitempty"` // nanoseconds added to the epoch: the wall-clock instant at which this run starts
+	Pid         int   `json:"pid,omitempty"`          // what os.Getpid answers (0 = 4242)
+
 	Programs  map[string]json.RawMessage `json:"programs,omitempty"`   // absolute path -> script for the registered program handler
 	BuildInfo map[string]string          `json:"build_info,omitempty"` // absolute path -> thriftgo dependency version
 
